@@ -184,6 +184,50 @@ theorem c15_callable_reads (f : Callable) (tr : List Event) :
     (runEvents (.callable f) tr).buf = written true tr :=
   ⟨runEvents_callable f tr, runEvents_buf _ tr⟩
 
+/-- OBJECTS THAT OUTLIVE AN EXECUTION.  Replacing, anywhere in a history, calls of `input` through a
+reference kept from an earlier execution (`ask = input`, a helper module imported earlier, a
+generator that captured it) by calls through the current `input` changes nothing the sandbox
+records: the whole state after the history is the same.  Hence every theorem above, stated over
+ALL traces (kept reads included), says for kept reads exactly what it says for ordinary ones:
+they are answered from the queue as it is at that moment, FIFO, once, then the default; their
+prompts and values belong to the execution that made the call. -/
+def Event.unkeep : Event → Event
+  | .readKept p => .read p
+  | e => e
+
+def Op.unkeep : Op → Op
+  | .exec pre tr => .exec pre (tr.map Event.unkeep)
+  | op => op
+
+theorem runEvents_unkeep (src : InputSrc) (tr : List Event) :
+    runEvents src (tr.map Event.unkeep) = runEvents src tr := by
+  induction tr generalizing src with
+  | nil => rfl
+  | cons e es ih =>
+    cases e with
+    | write t => simp [Event.unkeep, runEvents, ih]
+    | read p =>
+      cases src with
+      | callable f => simp [Event.unkeep, runEvents, ih]
+      | queue q => cases q <;> simp [Event.unkeep, runEvents, popQueue_nil, popQueue_cons, ih]
+    | readKept p =>
+      rw [runEvents_readKept]
+      cases src with
+      | callable f => simp [Event.unkeep, runEvents, ih]
+      | queue q => cases q <;> simp [Event.unkeep, runEvents, popQueue_nil, popQueue_cons, ih]
+
+theorem c15_kept_input_is_current_input (ops : List Op) :
+    run init (ops.map Op.unkeep) = run init ops := by
+  suffices H : ∀ s : St, run s (ops.map Op.unkeep) = run s ops from H init
+  induction ops with
+  | nil => intro s; rfl
+  | cons op ops ih =>
+    intro s
+    have hstep : step s op.unkeep = step s op := by
+      cases op <;> simp [Op.unkeep, step, stepE, runEvents_unkeep]
+    simp only [List.map_cons, run, List.foldl_cons, hstep]
+    exact ih (step s op)
+
 /-! ### non-vacuity / regression tests (evaluated, not theorems) -/
 
 private def s (x : String) : Str := x.toList
@@ -199,6 +243,11 @@ private def s (x : String) : Str := x.toList
 #guard ((run init [.setInput (.many [s "1", s "2"]) true, .queueInput [s "3"],
           .exec none [.read [], .read []], .exec none [.read [], .read []]]).contexts.map Ctx.inputs)
         = [[s "1", s "2"], [s "3", defaultStr]]
+-- a kept `input` after the queue was REBOUND (clear_input) and refilled: the new values, FIFO, then the default
+#guard ((run init [.setInput (.many [s "a", s "b"]) true, .exec none [.readKept (s "p")], .clearInput,
+          .queueInput [s "c"], .exec none [.readKept (s "p"), .read [], .readKept []]]).contexts.map Ctx.inputs)
+        = [[s "a"], [s "c", defaultStr, defaultStr]]
+#guard (run init [.exec none [.readKept (s "p?")]]).raw = s "p?\n"
 #guard rstrip (s "a \t\x0b\x0c\r\n\x1c\x1d\x1e\x1f\u0085  　") = s "a"
 #guard rstrip (s " a​") = s " a​"
 #guard splitNL (s "a\n\nb\n") = [s "a", s "", s "b", s ""]
